@@ -70,6 +70,14 @@ static void no_leak(void) {
   PROP(LEDGER[32] != LIVE, "no leak: the value passed in is destroyed by the time the buffer is dropped");
   for (unsigned i = 0; i < 16; i++) PROP(LEDGER[i] != LIVE, "no leak: every original element is destroyed by the time the buffer is dropped");
 }
+/* element lifecycle events (C18): destructor calls k0.. ran on ids first, first+1, .. in that order */
+static void dropped_ascending(unsigned k0, size_t first, size_t count) {
+#ifndef ORDER
+  return;           /* destructor order is only an obligation where the property is about lifecycle events (C18) */
+#endif
+  PROP(DROP_N == k0 + count, "lifecycle: exactly the expected number of destructor calls");
+  for (size_t i = 0; i < NN; i++) if (i < count) PROP(DROP_ORDER[k0 + i] == first + i, "lifecycle: destructors run front to back");
+}
 static _Bool fault_fired(void) { return FAULT_KIND != F_NONE && EV[FAULT_KIND] > FAULT_AT; }
 
 int main() {
@@ -116,6 +124,11 @@ int main() {
 #endif
       PROP((LEDGER[i] == DEAD) == gone, "no fault: exactly the truncated elements are destroyed");
     }
+#if defined(S_TRUNCATE_FRONT)
+    dropped_ascending(0, 0, size0 - keep);
+#else
+    dropped_ascending(0, keep, size0 - keep);
+#endif
   }
   final_drop(&b);
   if (kind_at_op == F_NONE) no_leak();
@@ -299,6 +312,7 @@ int main() {
     PROP(b.f0 == size0 - (rb - ra), "no fault: length after drain");
     for (size_t i = 0; i < NN; i++) if (i < b.f0) PROP(SLOT(&b, i).id == (i < ra ? i : i + (rb - ra)), "no fault: elements before the range, then elements after it, in order");
     for (size_t i = 0; i < NN; i++) if (i < size0) PROP((LEDGER[i] == DEAD) == (i >= ia && i < ib), "no fault: exactly the un-yielded drained elements are destroyed");
+    dropped_ascending(0, ia, ib - ia);
   }
   final_drop(&b);
   for (size_t i = 0; i < NN; i++) if ((i >= ra && i < ia) || (i >= ib && i < rb)) PROP(LEDGER[i] == LIVE, "elements handed out by the drain are never destroyed by the buffer");
